@@ -249,12 +249,13 @@ pub fn entries_for(prop: &str) -> Vec<Entry> {
             e(t1(t1_push()), 1500, 50_000),
             e(t1(t1_fatal()), 2000, 60_000),
         ],
-        "C02" => vec![e(t1(t1_coop_settings()), 6000, 200_000), e(t1(t1_aborts()), 4000, 150_000), e(t1(t1_coop()), 3000, 100_000), e(t1(t1_conc()), 2000, 60_000)],
+        "C02" => vec![e(t1(t1_coop_settings()), 5000, 200_000), e(t1(t1_aborts()), 4000, 150_000), e(t1(t1_push()), 3000, 100_000), e(t1(t1_coop()), 2000, 100_000), e(t1(t1_conc()), 2000, 60_000)],
         "C03" => vec![
             e(t1(t1_coop_settings()), 4000, 150_000),
             e(t1(t1_aborts()), 4000, 150_000),
             e(t2s("t2-exhaust"), 4000, 150_000),
             e(t1(t1_push_unadopted()), 2500, 80_000),
+            e(t1(t1_push()), 2500, 80_000),
             e(t2s("t2-legal"), 2000, 60_000),
             e(t1(t1_coop()), 1500, 50_000),
         ],
